@@ -10,6 +10,7 @@ primitive on the path made scheduler-aware:
 """
 from __future__ import annotations
 
+from vlib.paths import SQLGLOT
 import _thread
 import importlib._bootstrap as ib
 import os
@@ -19,8 +20,8 @@ import threading
 import traceback
 import typing as t
 
-SEL_FILES = ("/repo/sqlglot/dialects/dialect.py", "/repo/sqlglot/dialects/__init__.py", "/repo/sqlglot/generator.py",
-             "/repo/sqlglot/optimizer/__init__.py")
+SEL_FILES = (SQLGLOT + "/dialects/dialect.py", SQLGLOT + "/dialects/__init__.py", SQLGLOT + "/generator.py",
+             SQLGLOT + "/optimizer/__init__.py")
 SEL_FUNCS = {"__new__", "_try_load", "get", "__getitem__", "classes", "get_or_raise", "__getattr__", "__init__", "_build_dispatch",
              "__eq__", "__hash__"}
 HORIZON = 60000
@@ -176,7 +177,7 @@ def selected(co) -> bool:
     dialect metaclass and of Dialect; in generator.py the module-level functions (dispatch-table construction,
     whatever they are called) and Generator.__init__. Chosen structurally, so renames / extractions are followed."""
     fn = co.co_filename
-    if co.co_name == "<module>" and fn in ("/repo/sqlglot/optimizer/optimizer.py", "/repo/sqlglot/optimizer/__init__.py"):
+    if co.co_name == "<module>" and fn in (SQLGLOT + "/optimizer/optimizer.py", SQLGLOT + "/optimizer/__init__.py"):
         return True  # top-level statements of lazily imported modules: another thread may see them half-initialised
     if fn not in SEL_FILES:
         return False
@@ -250,7 +251,7 @@ def run_in_child(bodies: list[t.Callable[[], t.Any]], schedule: dict[int, int], 
             out[i] = ("deadlock", str(e))
         except BaseException as e:
             tb = traceback.extract_tb(e.__traceback__)
-            where = next((f"{os.path.basename(fr.filename)}:{fr.name}" for fr in reversed(tb) if "/repo/sqlglot" in fr.filename), "?")
+            where = next((f"{os.path.basename(fr.filename)}:{fr.name}" for fr in reversed(tb) if SQLGLOT in fr.filename), "?")
             out[i] = ("exc", type(e).__name__, str(e)[:200], where)
         finally:
             sys.settrace(None)
